@@ -93,16 +93,16 @@ theorem selectAxis_slice (e o c : Nat) (h : o + c ≤ e) :
     split
     · omega
     · omega
-  simp only [selectAxis, hlo, hhi]
+  simp only [selectAxis, sliceStep, hlo, hhi]
   have h2 : ¬ ((1 : Int) < 1) := by omega
-  simp only [h2, if_false]
+  rw [if_neg h2]
   have h3 : ¬ (o + c < o) := by omega
-  simp only [h3, if_false]
+  rw [if_neg h3]
   by_cases hc : c = 0
   · subst hc
     simp
   · have : ¬ (o + c = o) := by omega
-    simp only [this, if_false]
+    rw [if_neg this]
     congr 1
     simp
     omega
